@@ -130,3 +130,50 @@ class StatePairs(Harness):
 
 
 HARNESSES = [StatePairs()]
+
+# ---- deductive contracts: a copy is a fresh, separate object graph carrying the same value -------------------------------------
+# (the dictionaries `signature` / `object_mapping` of a fact are shared between a fact and its copy: the library never writes them
+#  through a state; what states are mutated through — buckets and stored fluent values — is separate, which is what is proved.)
+_GP = ("ref", "GroundedPredicate")
+_ST = ("ref", "State")
+_SP, _RP = "self.state_predicates", "result.state_predicates"
+_SF, _RF = "self.state_fluents", "result.state_fluents"
+_BK = "seq({d}[{d}.keys()[i]])"
+from contracts.c07 import CONTRACTS as _C07_CONTRACTS
+CONTRACTS["models.pddl_function:PDDLFunction.copy"] = dict(_C07_CONTRACTS["models.pddl_function:PDDLFunction.copy"], prop="C07")
+CONTRACTS["models.pddl_predicate:GroundedPredicate.copy"] = dict(
+    prop="C14", params={"self": _GP, "is_negated": "bool"},
+    returns=_GP,
+    ensures=["fresh(result)", "result != self", "result.name == self.name", "result.signature == self.signature",
+             "result.object_mapping == self.object_mapping", "result.is_positive == (self.is_positive != is_negated)",
+             "result.is_masked == False"],
+    raises={}, modifies=[])
+# representation invariant of a state object (a Python object graph): existing objects, dictionaries with pairwise distinct keys
+STATE_WF = ["allocated(self)", f"allocated({_SP})", f"allocated({_SF})",
+            f"forall_int(lambda i: forall_int(lambda j: implies(i != j, {_SP}.keys()[i] != {_SP}.keys()[j]), 0, len({_SP}.keys())), 0, len({_SP}.keys()))",
+            f"forall_int(lambda i: forall_int(lambda j: implies(i != j, {_SF}.keys()[i] != {_SF}.keys()[j]), 0, len({_SF}.keys())), 0, len({_SF}.keys()))",
+            f"forall_int(lambda i: allocated({_SP}[{_SP}.keys()[i]]), 0, len({_SP}.keys()))"]
+CONTRACTS["models.pddl_state:State.copy"] = dict(
+    prop="C14", params={"self": _ST}, returns=_ST,
+    requires=STATE_WF,
+    ensures=[
+        # a new state object with new dictionaries
+        "fresh(result)", f"fresh({_RP})", f"fresh({_RF})", f"{_RP} != {_RF}", "result.is_init == self.is_init",
+        # same keys in the same order
+        f"{_RP}.keys() == {_SP}.keys()", f"{_RF}.keys() == {_SF}.keys()",
+        # every bucket is a new set holding new fact objects with the same content
+        f"forall_int(lambda i: fresh({_RP}[{_RP}.keys()[i]]) and len({_BK.format(d=_RP)}) == len({_BK.format(d=_SP)}), 0, len({_SP}.keys()))",
+        f"forall_int(lambda i: forall_int(lambda j: fresh({_BK.format(d=_RP)}[j]) and "
+        f"{_BK.format(d=_RP)}[j].name == {_BK.format(d=_SP)}[j].name and {_BK.format(d=_RP)}[j].is_positive == {_BK.format(d=_SP)}[j].is_positive and "
+        f"{_BK.format(d=_RP)}[j].signature == {_BK.format(d=_SP)}[j].signature and {_BK.format(d=_RP)}[j].object_mapping == {_BK.format(d=_SP)}[j].object_mapping, "
+        f"0, len({_BK.format(d=_SP)})), 0, len({_SP}.keys()))",
+        # every fluent is a new object with the same name, parameters and value
+        f"forall_int(lambda i: fresh({_RF}[{_RF}.keys()[i]]) and {_RF}[{_RF}.keys()[i]].name == {_SF}[{_SF}.keys()[i]].name and "
+        f"{_RF}[{_RF}.keys()[i]].stored_value == {_SF}[{_SF}.keys()[i]].stored_value and {_RF}[{_RF}.keys()[i]].signature == {_SF}[{_SF}.keys()[i]].signature and "
+        f"{_RF}[{_RF}.keys()[i]].repeating_variables == {_SF}[{_SF}.keys()[i]].repeating_variables, 0, len({_SF}.keys()))",
+        # buckets of different keys are different objects, fluents of different keys are different objects
+        f"forall_int(lambda i: forall_int(lambda j: implies(i != j, {_RP}[{_RP}.keys()[i]] != {_RP}[{_RP}.keys()[j]]), 0, len({_SP}.keys())), 0, len({_SP}.keys()))",
+        f"forall_int(lambda i: forall_int(lambda j: implies(i != j, {_RF}[{_RF}.keys()[i]] != {_RF}[{_RF}.keys()[j]]), 0, len({_SF}.keys())), 0, len({_SF}.keys()))",
+    ],
+    raises={}, modifies=[],
+    calls={"GroundedPredicate.copy": "models.pddl_predicate:GroundedPredicate.copy", "PDDLFunction.copy": "models.pddl_function:PDDLFunction.copy"})
